@@ -456,10 +456,18 @@ func (d *Dialer) Dial(network, address string) (Conn, error) {
 	port := 0
 	switch a := d.LocalAddr.(type) {
 	case *net.UDPAddr:
+		if proto != "udp" {
+			e.note(e.cur, "dial-mismatch")
+			return nil, &net.OpError{Op: "dial", Net: network, Err: errors.New("mismatched local address type")}
+		}
 		if a != nil {
 			ip, port = a.IP, a.Port
 		}
 	case *net.TCPAddr:
+		if proto != "tcp" {
+			e.note(e.cur, "dial-mismatch")
+			return nil, &net.OpError{Op: "dial", Net: network, Err: errors.New("mismatched local address type")}
+		}
 		if a != nil {
 			ip, port = a.IP, a.Port
 		}
